@@ -204,7 +204,7 @@ Section RoundTrip.
     Lemma conv_def_inv p1 p2 d : inv_on p1 p2 ->
       inv_on (conv_def leaf1 rec1 p1 d) (conv_def leaf2 rec2 p2 d).
     Proof.
-      intros Hp v x HQ H. unfold conv_def in *. destruct (has_converted d); [|discriminate].
+      intros Hp v x HQ H. unfold conv_def in *. destruct (is_some (data_def d) && has_converted d); [|discriminate].
       destruct d as [g fs|g vs].
       - destruct fs; [discriminate| |]; exact (conv_fields_inv p1 p2 _ Hp v x HQ H).
       - destruct v; try discriminate.
@@ -395,7 +395,7 @@ Section Leaves.
 
     Lemma conv_def_good p d : (forall v, good v (p v)) -> forall v, good v (conv_def leaf rec p d v).
     Proof.
-      intros Hp v. unfold conv_def. destruct (has_converted d); [|exact I]. destruct d as [g fs|g vs].
+      intros Hp v. unfold conv_def. destruct (is_some (data_def d) && has_converted d); [|exact I]. destruct d as [g fs|g vs].
       - destruct fs; [exact I| |]; apply conv_fields_good; exact Hp.
       - destruct v; try exact I. apply conv_variants_good. exact Hp.
     Qed.
@@ -430,6 +430,51 @@ Theorem derive_into_panic : forall E d targ v ids,
   derive_into E d targ v ids = Panic -> exists e, In e (ents v) /\ ids e = None.
 Proof.
   intros E d targ v ids H. pose proof (derive_into_good ids E d targ v) as G. rewrite H in G. exact G.
+Qed.
+
+(* supported definitions have a generated Data definition (the macro does not panic) *)
+Lemma plain_replace : forall t, plain_ty t = true -> is_some (replace_ty t) = true.
+Proof.
+  induction t using ty_ind'; intros Hp; cbn [plain_ty replace_ty] in *; try discriminate; try reflexivity.
+  - assert (Hl : is_some (mapO replace_ty l) = true).
+    { induction H as [|x l Hx _ IH]; [reflexivity|]. cbn [forallb] in Hp. apply andb_true_iff in Hp. destruct Hp as [H1 H2].
+      cbn [mapO]. specialize (Hx H1). specialize (IH H2). destruct (replace_ty x); [|discriminate].
+      destruct (mapO replace_ty l); [reflexivity|discriminate]. }
+    destruct (mapO replace_ty l); [reflexivity|discriminate].
+  - specialize (IHt Hp). destruct (replace_ty t); [reflexivity|discriminate].
+Qed.
+
+Lemma sup_ty_replace E g t : sup_ty E g t = true -> is_some (replace_ty t) = true.
+Proof.
+  destruct t; cbn [sup_ty]; intros H; try reflexivity; try discriminate; apply plain_replace; exact H.
+Qed.
+
+Lemma sup_field_replace E g f : sup_field E g f = true -> is_some (replace_field f) = true.
+Proof.
+  unfold sup_field, replace_field. destruct (fskip f); [reflexivity|]. intros H.
+  apply sup_ty_replace in H. destruct (replace_ty (fty f)); [reflexivity|discriminate].
+Qed.
+
+Lemma sup_fields_replace E g fs : sup_fields E g fs = true -> is_some (replace_fields fs) = true.
+Proof.
+  assert (Hl : forall l, forallb (sup_field E g) l = true -> is_some (replace_field_list l) = true).
+  { induction l as [|f l IH]; [reflexivity|]. cbn [forallb replace_field_list]. intros H.
+    apply andb_true_iff in H. destruct H as [H1 H2]. apply sup_field_replace in H1. specialize (IH H2).
+    destruct (replace_field f); [|discriminate]. destruct (replace_field_list l); [reflexivity|discriminate]. }
+  destruct fs as [|l|l]; cbn [sup_fields replace_fields]; [reflexivity| |]; intros H; specialize (Hl l H);
+    destruct (replace_field_list l); try reflexivity; discriminate.
+Qed.
+
+Lemma sup_def_data_def E d : sup_def E d = true -> is_some (data_def d) = true.
+Proof.
+  unfold sup_def. intros H. apply andb_true_iff in H. destruct H as [_ H]. destruct d as [g fs|g vs]; cbn [data_def].
+  - destruct fs as [|l|l]; [discriminate| |]; apply sup_fields_replace in H;
+      destruct (replace_fields _); try reflexivity; discriminate.
+  - assert (Hv : is_some (replace_variants vs) = true).
+    { induction vs as [|w vs IH]; [reflexivity|]. cbn [forallb replace_variants] in *.
+      apply andb_true_iff in H. destruct H as [H1 H2]. apply sup_fields_replace in H1. specialize (IH H2).
+      destruct (replace_fields (vfields w)); [|discriminate]. destruct (replace_variants vs); [reflexivity|discriminate]. }
+    destruct (replace_variants vs); [reflexivity|discriminate].
 Qed.
 
 (* ================================================================== *)
@@ -513,8 +558,9 @@ Section Total.
     Lemma conv_def_total p h d : sup_def E d = true -> total p h ->
       total (conv_def leaf rec p d) (has_def hrec h d).
     Proof.
-      intros Hs Hp v Hv Hm. unfold sup_def, conv_def in *. apply andb_true_iff in Hs. destruct Hs as [Hc Hs].
-      rewrite Hc. destruct d as [g fs|g vs]; cbn [has_def] in *.
+      intros Hs Hp v Hv Hm. pose proof (sup_def_data_def _ _ Hs) as Hdd. unfold sup_def, conv_def in *.
+      apply andb_true_iff in Hs. destruct Hs as [Hc Hs].
+      rewrite Hdd, Hc. cbn [andb]. destruct d as [g fs|g vs]; cbn [has_def] in *.
       - destruct fs; [discriminate| |]; exact (conv_fields_total g p h _ Hs Hp v Hv Hm).
       - destruct v; try discriminate. exact (conv_variants_total g p h vs vn Hs Hp v Hv Hm).
     Qed.
@@ -579,7 +625,7 @@ Theorem derive_into_tuple_struct_fieldwise : forall E g fs targ vs x ids,
       exists d, nth_error ds i = Some d /\ field_conv_into E targ ids f v = Ok d.
 Proof.
   intros E g fs targ vs x ids H. unfold derive_into, conv_def in H.
-  destruct (has_converted _); [|discriminate]. cbn [conv_fields] in H.
+  destruct (is_some _ && has_converted _); [|discriminate]. cbn [conv_fields] in H.
   apply rmap_ok in H. destruct H as (ds & Hds & ->). exists ds. split; [reflexivity|].
   exact (zipM_nth _ _ _ _ Hds).
 Qed.
@@ -592,7 +638,7 @@ Theorem derive_into_named_struct_fieldwise : forall E g fs targ vs x ids,
       exists d, nth_error ds i = Some (fname f, d) /\ field_conv_into E targ ids f (snd nv) = Ok d.
 Proof.
   intros E g fs targ vs x ids H. unfold derive_into, conv_def in H.
-  destruct (has_converted _); [|discriminate]. cbn [conv_fields] in H.
+  destruct (is_some _ && has_converted _); [|discriminate]. cbn [conv_fields] in H.
   apply rmap_ok in H. destruct H as (ds & Hds & ->). exists ds. split; [reflexivity|].
   destruct (zipM_nth _ _ _ _ Hds) as (L1 & L2 & Hn). repeat split; auto.
   - destruct (Hn i f nv H H0) as (c & _ & Hc). destruct (N.eqb_spec (fst nv) (fname f)); [assumption|discriminate].
@@ -607,7 +653,7 @@ Theorem derive_into_enum_by_name : forall E g ws targ vn body x ids,
     conv_fields (into_leaf ids) (conv_env (into_leaf ids) E) (param_conv (into_leaf ids) E targ) (vfields w) body = Ok body'.
 Proof.
   intros E g ws targ vn body x ids H. unfold derive_into, conv_def in H.
-  destruct (has_converted _); [|discriminate].
+  destruct (is_some _ && has_converted _); [|discriminate].
   induction ws as [|w ws IH]; cbn [conv_variants find] in *; [discriminate|].
   destruct (N.eqb (vname w) vn).
   - apply rmap_ok in H. destruct H as (b' & Hb' & ->). eauto.
@@ -655,7 +701,193 @@ Theorem converted_field_own_conversion : forall leaf rec p f v,
 Proof. intros leaf rec p f v Hs. unfold conv_field. rewrite Hs. reflexivity. Qed.
 
 (* ================================================================== *)
-(* 5. #[derive(Component)] *)
+(* 5. the data is a value of the generated `<Name>SaveloadData` definition *)
+
+Lemma mapO_some_cons {A B} (f : A -> option B) a l r :
+  mapO f (a :: l) = Some r -> exists b bs, f a = Some b /\ mapO f l = Some bs /\ r = b :: bs.
+Proof.
+  cbn [mapO]. destruct (f a) as [b|]; [|discriminate]. destruct (mapO f l) as [bs|]; [|discriminate].
+  intros H. inversion H. eauto.
+Qed.
+
+Section DataShape.
+  Variable hrec : nat -> (tree -> bool) -> tree -> bool.
+
+  (* a plain value at the replaced type of a plain type *)
+  Lemma has_plain_replace parg : forall t t' v,
+    plain_ty t = true -> replace_ty t = Some t' -> has_plain t v = true -> has_dty hrec parg t' v = true.
+  Proof.
+    induction t using ty_ind'; intros t' v Hp Hr Hv; cbn [plain_ty replace_ty] in *; try discriminate.
+    - inversion Hr; subst. cbn [has_dty has_data_of plain_ty]. exact Hv.
+    - destruct (mapO replace_ty l) as [l'|] eqn:Hl; [|discriminate]. inversion Hr; subst. clear Hr.
+      destruct v; cbn [has_plain] in Hv; try discriminate. cbn [has_dty].
+      revert l' l0 Hl Hv Hp. induction H as [|x l Hx _ IH]; intros l' vs Hl Hv Hp.
+      + inversion Hl; subst. destruct vs; [reflexivity|discriminate].
+      + apply mapO_some_cons in Hl. destruct Hl as (b & bs & Hb & Hbs & ->).
+        destruct vs as [|y vs]; cbn [forall2b] in Hv; [discriminate|].
+        apply andb_true_iff in Hv. destruct Hv as [Hv1 Hv2].
+        cbn [forallb] in Hp. apply andb_true_iff in Hp. destruct Hp as [Hp1 Hp2].
+        cbn [forall2b]. rewrite (Hx b y Hp1 Hb Hv1). cbn [andb]. apply IH; assumption.
+    - destruct (replace_ty t) as [u|] eqn:Hu; [|discriminate]. inversion Hr; subst. clear Hr.
+      destruct v; cbn [has_plain] in Hv; try discriminate. cbn [has_dty].
+      apply andb_true_iff in Hv. destruct Hv as [Hn Hv]. rewrite Hn. cbn [andb]. clear Hn.
+      induction l as [|y l IHl]; [reflexivity|]. cbn [forallb] in *. apply andb_true_iff in Hv. destruct Hv as [H1 H2].
+      rewrite (IHt u y Hp eq_refl H1). cbn [andb]. apply IHl. exact H2.
+  Qed.
+
+  (* a plain value at a plain type left unchanged (a skipped field) *)
+  Lemma has_plain_has_dty parg : forall t v,
+    plain_ty t = true -> has_plain t v = true -> has_dty hrec parg t v = true.
+  Proof.
+    induction t using ty_ind'; intros v Hp Hv; cbn [plain_ty] in *; try discriminate;
+      destruct v; cbn [has_plain] in Hv; try discriminate; cbn [has_dty].
+    - reflexivity.
+    - revert l0 Hv Hp. induction H as [|x l Hx _ IH]; intros vs Hv Hp.
+      + destruct vs; [reflexivity|discriminate].
+      + destruct vs as [|y vs]; cbn [forall2b] in Hv; [discriminate|].
+        apply andb_true_iff in Hv. destruct Hv as [Hv1 Hv2].
+        cbn [forallb] in Hp. apply andb_true_iff in Hp. destruct Hp as [Hp1 Hp2].
+        cbn [forall2b]. rewrite (Hx y Hp1 Hv1). cbn [andb]. apply IH; assumption.
+    - apply andb_true_iff in Hv. destruct Hv as [Hn Hv]. rewrite Hn. cbn [andb]. clear Hn.
+      induction l as [|y l IHl]; [reflexivity|]. cbn [forallb] in *. apply andb_true_iff in Hv. destruct Hv as [H1 H2].
+      rewrite (IHt y Hp H1). cbn [andb]. apply IHl. exact H2.
+  Qed.
+
+  Variable ids : entity -> option Z.
+  Variable rec : nat -> (tree -> res tree) -> tree -> res tree.
+  Let leaf := into_leaf ids.
+
+  (* whatever [p] returns is typed by [h] *)
+  Definition dgood (p : tree -> res tree) (h : tree -> bool) : Prop := forall v x, p v = Ok x -> h x = true.
+  Lemma dgood_none : dgood (fun _ => Bad) (fun _ => false).
+  Proof. intros v x H. discriminate. Qed.
+
+  Hypothesis Hrec : forall k p h, dgood p h -> dgood (rec k p) (hrec k h).
+
+  Lemma conv_ty_data_of : forall t p h, dgood p h -> dgood (conv_ty leaf rec p t) (has_data_of hrec h t).
+  Proof.
+    induction t using ty_ind'; intros p h Hp v x Hx; cbn [conv_ty has_data_of] in *; try discriminate.
+    - destruct (clone_plain_ok _ _ _ Hx) as (-> & H1 & H2). rewrite H1, H2. reflexivity.
+    - destruct v; cbn in Hx; try discriminate. destruct (ids e); [|discriminate]. inversion Hx. reflexivity.
+    - exact (Hrec k _ _ (IHt p h Hp) v x Hx).
+    - exact (Hrec k _ _ dgood_none v x Hx).
+    - destruct (clone_plain_ok _ _ _ Hx) as (-> & H1 & H2). rewrite H1, H2. reflexivity.
+    - destruct (clone_plain_ok _ _ _ Hx) as (-> & H1 & H2). rewrite H1, H2. reflexivity.
+    - exact (Hp v x Hx).
+  Qed.
+
+  Lemma conv_field_dgood p h f f' v x : dgood p h ->
+    replace_field f = Some f' -> conv_field leaf rec p f v = Ok x ->
+    fname f' = fname f /\ has_dty hrec h (fty f') x = true.
+  Proof.
+    intros Hp Hr Hx. unfold replace_field, conv_field in *. destruct (fskip f).
+    - inversion Hr; subst. cbn [fname fty]. split; [reflexivity|].
+      destruct (clone_plain_ok _ _ _ Hx) as (-> & H1 & H2). apply has_plain_has_dty; assumption.
+    - destruct (replace_ty (fty f)) as [t'|] eqn:Ht; [|discriminate]. inversion Hr; subst. cbn [fname fty].
+      split; [reflexivity|].
+      destruct (fty f) eqn:Hf; cbn [replace_ty] in Ht; try discriminate;
+        try (inversion Ht; subst; cbn [has_dty]; rewrite <- Hf in *; exact (conv_ty_data_of _ p h Hp v x Hx)).
+      + cbn [conv_ty] in Hx. destruct (clone_plain_ok _ _ _ Hx) as (-> & H1 & H2).
+        apply has_plain_replace with (t := TTuple l); assumption.
+      + cbn [conv_ty] in Hx. destruct (clone_plain_ok _ _ _ Hx) as (-> & H1 & H2).
+        apply has_plain_replace with (t := TArray t n); assumption.
+  Qed.
+
+  Lemma conv_tuple_dgood p h : dgood p h -> forall fs fs' vs ds,
+    replace_field_list fs = Some fs' -> zipM (conv_field leaf rec p) fs vs = Ok ds ->
+    forall2b (fun f y => has_dty hrec h (fty f) y) fs' ds = true.
+  Proof.
+    intros Hp. induction fs as [|f fs IH]; intros fs' vs ds Hr Hz; destruct vs as [|v vs]; cbn [zipM] in Hz; try discriminate.
+    - inversion Hz; inversion Hr; subst. reflexivity.
+    - cbn [replace_field_list] in Hr. destruct (replace_field f) as [f'|] eqn:Hf; [|discriminate].
+      destruct (replace_field_list fs) as [fs0|] eqn:Hfs; [|discriminate]. inversion Hr; subst.
+      apply bind_ok in Hz. destruct Hz as (d & Hd & Hz). apply bind_ok in Hz. destruct Hz as (ds0 & Hds & Hz).
+      inversion Hz; subst. cbn [forall2b].
+      destruct (conv_field_dgood p h f f' v d Hp Hf Hd) as (_ & ->). cbn [andb]. exact (IH _ _ _ eq_refl Hds).
+  Qed.
+
+  Lemma conv_named_dgood p h : dgood p h -> forall fs fs' vs ds,
+    replace_field_list fs = Some fs' ->
+    zipM (fun f nv => if N.eqb (fst nv) (fname f)
+                      then bind (conv_field leaf rec p f (snd nv)) (fun d => Ok (fname f, d)) else Bad) fs vs = Ok ds ->
+    forall2b (fun f ny => N.eqb (fst ny) (fname f) && has_dty hrec h (fty f) (snd ny)) fs' ds = true.
+  Proof.
+    intros Hp. induction fs as [|f fs IH]; intros fs' vs ds Hr Hz; destruct vs as [|[n v] vs]; cbn [zipM] in Hz; try discriminate.
+    - inversion Hz; inversion Hr; subst. reflexivity.
+    - cbn [replace_field_list] in Hr. destruct (replace_field f) as [f'|] eqn:Hf; [|discriminate].
+      destruct (replace_field_list fs) as [fs0|] eqn:Hfs; [|discriminate]. inversion Hr; subst.
+      apply bind_ok in Hz. destruct Hz as (d & Hd & Hz). apply bind_ok in Hz. destruct Hz as (ds0 & Hds & Hz).
+      inversion Hz; subst. cbn [fst snd] in Hd. destruct (N.eqb n (fname f)); [|discriminate].
+      apply bind_ok in Hd. destruct Hd as (d0 & Hd0 & Hd). inversion Hd; subst. cbn [forall2b fst snd].
+      destruct (conv_field_dgood p h f f' v d0 Hp Hf Hd0) as (-> & ->). rewrite N.eqb_refl. cbn [andb].
+      exact (IH _ _ _ eq_refl Hds).
+  Qed.
+
+  Lemma conv_fields_dgood p h fs fs' v x : dgood p h ->
+    replace_fields fs = Some fs' -> conv_fields leaf rec p fs v = Ok x -> dhas_fields hrec h fs' x = true.
+  Proof.
+    intros Hp Hr Hx. destruct fs as [|l|l], v; cbn [conv_fields replace_fields] in *; try discriminate.
+    - inversion Hr; inversion Hx; subst. reflexivity.
+    - destruct (replace_field_list l) as [l'|] eqn:Hl; [|discriminate]. inversion Hr; subst.
+      apply rmap_ok in Hx. destruct Hx as (ds & Hds & ->). cbn [dhas_fields].
+      exact (conv_tuple_dgood p h Hp _ _ _ _ Hl Hds).
+    - destruct (replace_field_list l) as [l'|] eqn:Hl; [|discriminate]. inversion Hr; subst.
+      apply rmap_ok in Hx. destruct Hx as (ds & Hds & ->). cbn [dhas_fields].
+      exact (conv_named_dgood p h Hp _ _ _ _ Hl Hds).
+  Qed.
+
+  Lemma conv_variants_dgood p h : dgood p h -> forall vs vs' vn b x,
+    replace_variants vs = Some vs' -> conv_variants leaf rec p vs vn b = Ok x ->
+    exists b', x = Var vn b' /\ dhas_variants hrec h vs' vn b' = true.
+  Proof.
+    intros Hp. induction vs as [|w vs IH]; intros vs' vn b x Hr Hx; cbn [conv_variants replace_variants] in *; [discriminate|].
+    destruct (replace_fields (vfields w)) as [fs'|] eqn:Hf; [|discriminate].
+    destruct (replace_variants vs) as [ws|] eqn:Hw; [|discriminate]. inversion Hr; subst.
+    cbn [dhas_variants vname vfields]. destruct (N.eqb (vname w) vn).
+    - apply rmap_ok in Hx. destruct Hx as (b' & Hb' & ->). exists b'. split; [reflexivity|].
+      exact (conv_fields_dgood p h _ _ _ _ Hp Hf Hb').
+    - exact (IH _ _ _ _ eq_refl Hx).
+  Qed.
+
+  Lemma conv_def_dgood p h d v x : dgood p h -> conv_def leaf rec p d v = Ok x ->
+    exists dd, data_def d = Some dd /\ dhas_def hrec h dd x = true.
+  Proof.
+    intros Hp Hx. unfold conv_def in Hx. destruct (data_def d) as [dd|] eqn:Hdd; [|discriminate]. exists dd. split; [reflexivity|].
+    cbn [is_some andb] in Hx. destruct (has_converted d); [|discriminate].
+    destruct d as [g fs|g vs]; cbn [data_def] in Hdd.
+    - destruct fs as [|l|l]; [discriminate| |];
+        (destruct (replace_fields _) as [fs'|] eqn:Hf; [|discriminate]); inversion Hdd; subst; cbn [dhas_def];
+        exact (conv_fields_dgood p h _ _ _ _ Hp Hf Hx).
+    - destruct (replace_variants vs) as [vs'|] eqn:Hv; [|discriminate]. inversion Hdd; subst.
+      destruct v; try discriminate. cbn [dhas_def].
+      destruct (conv_variants_dgood p h Hp _ _ _ _ _ Hv Hx) as (b' & -> & Hb'). exact Hb'.
+  Qed.
+End DataShape.
+
+Lemma conv_env_dgood ids : forall E k p h, dgood p h -> dgood (conv_env (into_leaf ids) E k p) (dhas_env E k h).
+Proof.
+  induction E as [|d E IH]; intros k p h Hp v x Hx; cbn [conv_env dhas_env] in *; [discriminate|].
+  destruct (Nat.eqb k (length E)); [|exact (IH k p h Hp v x Hx)].
+  destruct (conv_def_dgood (dhas_env E) ids (conv_env (into_leaf ids) E) IH p h d v x Hp Hx) as (dd & -> & H). exact H.
+Qed.
+
+(* the data returned by the derived convert_into is a value of the generated
+   Data definition: every path type replaced by its Data (plain types by
+   themselves, Entity by the marker, a derived type by its own generated
+   definition, the type parameter by its argument's Data), skipped fields
+   unchanged, same field names, same variant names *)
+Theorem derive_into_data_shape : forall E d targ v x ids,
+  derive_into E d targ v ids = Ok x ->
+  exists dd, data_def d = Some dd /\ data_of_def E dd targ x = true.
+Proof.
+  intros E d targ v x ids H. unfold derive_into, data_of_def in *.
+  refine (conv_def_dgood (dhas_env E) ids _ (conv_env_dgood ids E) _ _ d v x _ H).
+  unfold param_conv, dparam_has. destruct targ as [ta|]; [|apply dgood_none].
+  apply conv_ty_data_of; [apply conv_env_dgood|apply dgood_none].
+Qed.
+
+(* ================================================================== *)
+(* 6. #[derive(Component)] *)
 
 Lemma set_last_args_app p n a b : set_last_args (p ++ [(n, a)]) b = p ++ [(n, b)].
 Proof.
